@@ -38,3 +38,51 @@ def thorough_only_names(pid):
             if h.get('thorough_only'):
                 res.add('ek:' + h['name'])
     return res
+
+PROTO_NOTE = (TRUST_COMMON + ' Functions whose bodies are closure/iterator chains (handle_network_event_connection_closed, '
+              'handle_network_event_incoming_data, handle_network_event_write_completion, apply_session_present_to_connection, '
+              'initialize_slow_start, complete_operation_sequence_*, reset) enter E-V only as assumed contracts (R5 stubs); the bounded '
+              'engine E-B runs the real functions against those contracts on a stated small scope. Encoder/Decoder/alias-resolver are '
+              'opaque shims inside the engine unit.')
+
+
+def _ev(units, level_text, technique='Verus function contracts + representation invariant wf(ProtocolState) on extracted real functions', **kw):
+    d = {'ev': units, 'level': 'proof', 'technique': technique, 'level_text': level_text, 'level_note': PROTO_NOTE}
+    d.update(kw)
+    return d
+
+
+PROPS['C06']['ev'] = ['protocol']
+PROPS['C06']['level_note'] = PROTO_NOTE
+PROPS.update({
+    'C01': _ev(['protocol'], 'Unbounded per-function proof: both completion paths remove exactly the named operation and its id bindings and keep wf; '
+               'every ack handler completes only the operation its packet id names, of the right type and reason-code count (resp_belongs), and '
+               'changes nothing otherwise; operation ids are fresh (create_operation never overwrites). At-most-once handler invocation is the '
+               'E-K harness on complete_operation_with_result/_error; reset()/connection-closed are bounded (E-B).', design_ref='DESIGN.md 3/C01'),
+    'C04': _ev(['protocol'], 'Per-function proof of the QoS2 handshake steps (PUBREC sets exactly one PUBREL for that id and queues it; PUBCOMP only after PUBREC), '
+               'of the DUP-flag frame, and of what happens to a half-written publish at connection close; re-queue at close/CONNACK is bounded (E-B).', design_ref='DESIGN.md 3/C04'),
+    'C05': _ev(['protocol'], 'Complete per-function proof for handle_publish / handle_pubrel: QoS1 -> event + one PUBACK at the back; QoS2 -> PUBREC always, event iff id not pending; '
+               'PUBREL -> id released + one PUBCOMP; acks only push_back so they leave in arrival order (dequeue returns the front).', design_ref='DESIGN.md 3/C05'),
+    'C07': _ev(['protocol'], 'Per-function proof: connection-opened queues exactly one CONNECT at the front and arms the deadline; before CONNACK only the '
+               'high-priority queue is served and it holds only the CONNECT (W7, proved through service_queue_aux); CONNACK handling (state check, failing code, '
+               'negotiated settings = CONNACK else CONNECT else spec default); DISCONNECT written => PendingDisconnect, which writes nothing.', design_ref='DESIGN.md 3/C07'),
+    'C08': _ev(['protocol'], 'Proof that get_next_service_timepoint_protocol_queue returns "now" exactly when dequeue_operation would return an operation (same spec function next_sendable), '
+               'and that the connected service time is <= every armed deadline; liveness ("completes within bounded steps") is not decidable by contracts.', design_ref='DESIGN.md 3/C08'),
+    'C09': _ev(['protocol'], 'Proof that a QoS1+ publish leaves the resubmit/user queue only while pending_publish.len() < Receive Maximum, that the in-flight table grows by at most the '
+               'written operation, and that the slow-start counter equals the number of contributing operations (W9) so its decrement cannot panic.', design_ref='DESIGN.md 3/C09'),
+    'C10': _ev(['protocol'], 'Proof that dequeue_operation returns the head of the first non-empty queue in priority order and a blocked head is not overtaken; user operations are appended '
+               'with strictly increasing ids. Sorting/re-queueing at close and CONNACK is bounded (E-B).', design_ref='DESIGN.md 3/C10'),
+    'C11': _ev(['protocol', 'client'], 'Every panic!/unwrap/assert/index/overflow inside the 70+ extracted engine functions is a discharged obligation under wf; every entry point returns Err => Halted, '
+               'Halted rejects service and traffic. One obligation is an open known finding (F-TIMEOUT-CURRENT).', design_ref='DESIGN.md 3/C11'),
+    'C12': _ev(['client', 'protocol'], 'Complete proof of the lifecycle decision table compute_optional_state_transition (all current x desired x stop-option cases); event grammar of '
+               'transition_to_state is bounded (E-B); thread/task interleavings are outside contract-based verification.', design_ref='DESIGN.md 3/C12'),
+    'C14': _ev(['protocol'], 'Proof of service_keep_alive (deadline = now + min(ping timeout, K*500ms), next ping = now + K s, one PINGREQ at the front), handle_connack (first ping), '
+               'handle_pingresp, and that completion only ever moves the next ping later.', design_ref='DESIGN.md 3/C14'),
+    'C15': _ev(['protocol'], 'Proof that does_packet_pass_offline_queue_policy equals the policy table for every packet kind x policy, and that submission while not connected / close of the '
+               'current operation apply it; the other positions at close are bounded (E-B).', design_ref='DESIGN.md 3/C15'),
+    'C18': _ev(['protocol'], 'Proof that the ack timeout is armed only when the packet is fully written, for exactly now+T, and that process_ack_timeouts fails exactly the operations whose '
+               'deadline has passed and leaves no due record; interrupted-retry counting is bounded (E-B).', design_ref='DESIGN.md 3/C18'),
+    'C19': _ev(['client'], 'Proof of normalize (swap, raise to 1 s), clamp, advance (doubling to the maximum, jitter within [0, period], no panic for any configuration) and the closed-form lemma '
+               'w(k) = min(base*2^k, max).', technique='Verus function contracts + inductive lemma on extracted real functions', design_ref='DESIGN.md 3/C19',
+               level_note=TRUST_COMMON + ' rand::Rng::gen_range is an assumed specification (panics on empty range; result in range).'),
+})
